@@ -260,6 +260,59 @@ def check_exit_status(chk, prog, model):
              n, bad, floor=20)
 
 
+def check_stdin_lines(chk, prog, model):
+    """jwt-verify -: each line read from stdin is verified as given, minus its line terminator only (evaluated on the two line
+    classes: terminated by a newline / last line without one)"""
+    unit = 'tools/jwt-verify.c'
+    u = prog.unit(unit)
+    main = u.funcs.get('main')
+    loop = None
+    for x in walk(main):
+        if x.get('kind') in ('WhileStmt', 'ForStmt', 'DoStmt'):
+            if any(y.get('kind') == 'CallExpr' and _strip(y['inner'][0]).get('referencedDecl', {}).get('name') in ('fgets', 'getline')
+                   for y in walk(x['inner'][0] if x['kind'] == 'WhileStmt' else x)):
+                loop = x
+                break
+    if loop is None:
+        raise AnalysisBroken('jwt-verify: stdin reading loop (fgets) not found')
+    body = loop['inner'][-1]
+    # the buffer variable: first argument of fgets
+    fg = [y for y in walk(loop) if y.get('kind') == 'CallExpr' and _strip(y['inner'][0]).get('referencedDecl', {}).get('name') == 'fgets'][0]
+    bufref = _strip(fg['inner'][1])
+    if bufref.get('kind') != 'DeclRefExpr':
+        raise AnalysisBroken('jwt-verify: fgets buffer is not a plain variable')
+    bid, bname = bufref['referencedDecl']['id'], bufref['referencedDecl'].get('name')
+    n = 0
+    bad = 0
+    for line, want in (('abc.def.ghi\n', 'abc.def.ghi'), ('abc.def.ghi', 'abc.def.ghi'), ('\n', ''), ('x\n', 'x'), ('x', 'x')):
+        n += 1
+        got = []
+
+        def h_po(it, st, args, node):
+            from model import concrete_cstr
+            got.append(concrete_cstr(st, args[2]))
+            return [(st, Int(0))]
+        it = Interp(prog, unit, model=model, hooks={'process_one': h_po})
+        st = State()
+        loc = ('var', unit, bid, bname)
+        for i, ch in enumerate(line):
+            st.mem[(loc, '[%d]' % i)] = Int(ord(ch))
+        st.mem[(loc, '[%d]' % len(line))] = Int(0)
+        it.frames.append('main')
+        it.fn_locals.append(frozenset())
+        try:
+            it.exec_stmt(body, st)
+        finally:
+            it.frames.pop()
+        if got != [want]:
+            bad += 1
+            chk.add(Finding('C20.stdin-lines', unit, 'main', 'line[%s]' % ('newline-terminated' if line.endswith('\n') else 'unterminated-last-line'),
+                            'a stdin line %r is verified as token %r (expected %r): a valid last token without a final newline would be reported as bad'
+                            % (line, got, want), line=loop.get('_l')))
+    chk.rule('C20.stdin-lines', 'jwt-verify -: the token handed to verification is the line minus its newline only, for terminated and '
+                                'unterminated lines', n, bad, floor=5)
+
+
 def check_key2jwk(chk, prog, model):
     unit = 'tools/key2jwk.c'
     prog.func(unit, 'process_ec_key')
@@ -412,6 +465,7 @@ def run(chk, prog, tier):
     model = build_model()
     check_options(chk, prog)
     chk.guard('exit status', check_exit_status, chk, prog, model)
+    chk.guard('stdin lines', check_stdin_lines, chk, prog, model)
     chk.guard('key2jwk widths', check_key2jwk, chk, prog, model)
     chk.guard('jwk2key provenance', check_jwk2key, chk, prog, model)
     chk.assumptions += ['behaviour of the built binaries (exit codes observed, tokens accepted, files written) is process-level and NOT decided']
